@@ -34,6 +34,7 @@ type concSpec struct {
 	G      grpSpec  `json:"g"`
 	Jobs   []opSpec `json:"jobs"`
 	Labels []label  `json:"labels"` // nil: draw a schedule
+	Class  string   `json:"class,omitempty"`
 }
 
 type sig struct {
@@ -60,7 +61,7 @@ func gid() int64 {
 
 type labelObs struct {
 	L      label
-	Ans    string // fast refused panic queued step stopped anomaly
+	Ans    string // fast refused panic queued step stopped abandoned cstep anomaly
 	V      val
 	E      string
 	ID     int
@@ -80,6 +81,9 @@ type ctl struct {
 	parked  map[int]*sig // worker -> the call it is parked in front of (with the job the call belongs to)
 	cparked map[int]*sig // job -> a call its caller's own goroutine is parked in front of (no model run has this)
 	pending map[int]int  // worker -> queued or running jobs whose callers have not returned
+	ocs     map[int]*opCtx
+	called  map[int]bool // jobs whose call has been started
+	gone    map[int]bool // jobs whose caller has given up while they were being handled
 	out     []labelObs
 	broken  string
 }
@@ -148,18 +152,33 @@ func (c *ctl) awaitArrival(l label, w int) bool {
 	return true
 }
 
+func (c *ctl) mkCtx(i int) *opCtx {
+	oc := newOpCtx(i, c.s.Jobs[i])
+	oc.tagged = true
+	oc.onDone = func() { c.sigs <- sig{kind: "accepted", job: i} }
+	c.ocs[i] = oc
+	return oc
+}
+
+func (c *ctl) hasChain(i int) bool { return i+1 < len(c.s.Jobs) && c.s.Jobs[i+1].Chain }
+
 func (c *ctl) doCall(l label) {
 	g := &c.s.G
 	i := l.Job
-	o := c.s.Jobs[i]
-	oc := newOpCtx(i, o)
-	oc.tagged = true
-	oc.onDone = func() { c.sigs <- sig{kind: "accepted", job: i} }
+	// the goroutine of job i goes on to the jobs chained behind it, each as soon as the previous call has returned
+	chain := []*opCtx{c.mkCtx(i)}
+	for j := i; c.hasChain(j); j++ {
+		chain = append(chain, c.mkCtx(j+1))
+	}
+	c.called[i] = true
 	m := c.h.mark()
 	go func() {
-		oc.gid = gid()
-		r := callOp(c.grp, c.h, g.Kind, oc)
-		c.sigs <- sig{kind: "returned", job: i, res: r}
+		id := gid()
+		for _, oc := range chain {
+			oc.gid = id
+			r := callOp(c.grp, c.h, g.Kind, oc)
+			c.sigs <- sig{kind: "returned", job: oc.id, res: r}
+		}
 	}()
 	s, ok := c.wait()
 	if !ok {
@@ -167,6 +186,53 @@ func (c *ctl) doCall(l label) {
 		return
 	}
 	c.settleCall(l, i, s, m)
+}
+
+// the call chained behind job i has been started by i's goroutine: observe it like a call label
+func (c *ctl) chained(i int) {
+	if !c.hasChain(i) || c.broken != "" {
+		return
+	}
+	j := i + 1
+	c.called[j] = true
+	m := c.h.mark()
+	s, ok := c.wait()
+	if !ok {
+		c.anomaly(label{Kind: "call", Job: j}, "the chained call neither returned nor queued its request within 10 s")
+		return
+	}
+	c.settleCall(label{Kind: "call", Job: j}, j, s, m)
+}
+
+// the caller of the job worker w is parked in gives up: its context is cancelled, AsyncC.R returns the context's error
+func (c *ctl) doAbandon(l label) {
+	w := l.W
+	p := c.parked[w]
+	if p == nil || c.gone[p.job] || c.ocs[p.job] == nil {
+		c.anomaly(l, "abandon without a parked job whose caller is still waiting")
+		return
+	}
+	j := p.job
+	c.gone[j] = true
+	c.pending[w]--
+	c.ocs[j].cancel()
+	s, ok := c.wait()
+	if !ok {
+		c.anomaly(l, fmt.Sprintf("the caller of job %d did not return within 10 s although its context was cancelled", j))
+		return
+	}
+	if s.kind != "returned" || s.job != j {
+		c.anomaly(l, fmt.Sprintf("unexpected signal %s(job %d, cache %d) after the context of job %d was cancelled", s.kind, s.job, s.w, j))
+		return
+	}
+	lo := labelObs{L: l, Ans: "abandoned", ID: j, E: s.res.E}
+	if s.res.Kind != "err" {
+		lo.Ans, lo.Note = "anomaly", "a caller whose context was cancelled while the worker was parked got "+s.res.String()
+		c.broken = lo.Note
+	}
+	c.snapshot(&lo)
+	c.out = append(c.out, lo)
+	c.chained(j)
 }
 
 // a caller-side step: what it executed (or, when it parked before doing anything, a placeholder read)
@@ -251,6 +317,9 @@ func (c *ctl) settleCall(l label, i int, s sig, m int) {
 	}
 	c.snapshot(&lo)
 	c.out = append(c.out, lo)
+	if lo.Ans != "queued" {
+		c.chained(i) // the call is over: its goroutine goes on to the job chained behind it
+	}
 }
 
 // release a caller that is parked in front of a caller-side instrumented call
@@ -270,6 +339,31 @@ func (c *ctl) doCStep(l label) {
 		return
 	}
 	c.settleCall(l, i, s, m)
+}
+
+// a worker may be stepped unless it is running an abandoned job with nothing live queued behind it (its completion
+// would then not be observable); an abandonable job parked in front of a store callback must be abandoned first
+func (c *ctl) steppable(w int) bool {
+	p := c.parked[w]
+	if p == nil {
+		return false
+	}
+	if c.gone[p.job] {
+		return c.pending[w] > 0
+	}
+	return !c.abandonable(w)
+}
+func (c *ctl) abandonable(w int) bool {
+	p := c.parked[w]
+	return p != nil && p.w < 0 && p.job >= 0 && p.job < len(c.s.Jobs) && c.s.Jobs[p.job].Ab && !c.gone[p.job] && c.ocs[p.job] != nil
+}
+func (c *ctl) nextCall() (int, bool) {
+	for i, o := range c.s.Jobs {
+		if !c.called[i] && !o.Chain && (o.After == 0 || c.called[o.After-1]) {
+			return i, true
+		}
+	}
+	return 0, false
 }
 
 func (c *ctl) parkedCallers() []int {
@@ -302,6 +396,10 @@ func (c *ctl) doStep(l label) {
 	switch {
 	case s.kind == "arrive" && c.arrivalOf(s, w) && s.job == id:
 		c.parked[w] = &s
+	case s.kind == "arrive" && c.arrivalOf(s, w) && c.gone[id]:
+		// the worker is in front of a call of another job: the abandoned job has completed, nobody takes its result
+		c.parked[w] = &s
+		lo.Fin = &result{Kind: "err", E: "ECtx"}
 	case s.kind == "arrive" && c.arrivalOf(s, w):
 		// the worker is already in front of a call of another job: job id has completed, its caller returns
 		c.parked[w] = &s
@@ -314,6 +412,10 @@ func (c *ctl) doStep(l label) {
 		lo.Fin = &r
 		c.pending[w]--
 	case s.kind == "returned" && s.job == id:
+		if c.hasChain(id) {
+			c.anomaly(l, fmt.Sprintf("job %d completed without having been abandoned although a call is chained behind it", id))
+			return
+		}
 		r := s.res
 		lo.Fin = &r
 		c.pending[w]--
@@ -371,7 +473,8 @@ func runConcMode(s *concSpec, r *rand.Rand, prefixOnly bool) (out []labelObs, en
 		g.Init[kv[0]] = kv[1]
 	}
 	h := newHist(g.Init)
-	c := &ctl{s: s, h: h, sigs: make(chan sig, 4096), parked: map[int]*sig{}, cparked: map[int]*sig{}, pending: map[int]int{}}
+	c := &ctl{s: s, h: h, sigs: make(chan sig, 4096), parked: map[int]*sig{}, cparked: map[int]*sig{}, pending: map[int]int{},
+		ocs: map[int]*opCtx{}, called: map[int]bool{}, gone: map[int]bool{}}
 	h.gate = func(oc *opCtx, cacheIdx int) {
 		gr := make(chan struct{})
 		id := -1
@@ -392,21 +495,35 @@ func runConcMode(s *concSpec, r *rand.Rand, prefixOnly bool) (out []labelObs, en
 			c.doStop(l)
 		case "cstep":
 			c.doCStep(l)
+		case "abandon":
+			c.doAbandon(l)
 		}
 	}
 	// whatever is still parked is let go, worker calls first
 	drainOne := func() (label, bool) {
-		if ws := c.parkedWorkers(); len(ws) > 0 {
-			return label{Kind: "step", W: ws[0]}, true
+		for _, w := range c.parkedWorkers() {
+			if c.abandonable(w) {
+				return label{Kind: "abandon", W: w}, true
+			}
+		}
+		for _, w := range c.parkedWorkers() {
+			if c.steppable(w) {
+				return label{Kind: "step", W: w}, true
+			}
 		}
 		if js := c.parkedCallers(); len(js) > 0 {
 			return label{Kind: "cstep", Job: js[0]}, true
+		}
+		if len(c.parkedWorkers()) > 0 {
+			// only abandoned jobs with nothing live behind them are left: queue what has not been called yet
+			if i, ok := c.nextCall(); ok {
+				return label{Kind: "call", Job: i}, true
+			}
 		}
 		return label{}, false
 	}
 	stopped := false
 	if s.Labels != nil || prefixOnly {
-		ncall := 0
 		for _, l := range s.Labels {
 			if c.broken != "" {
 				break
@@ -414,17 +531,18 @@ func runConcMode(s *concSpec, r *rand.Rand, prefixOnly bool) (out []labelObs, en
 			if l.Kind == "stop" {
 				stopped = true
 			}
-			if l.Kind == "call" {
-				ncall++
-			}
 			do(l)
 		}
 		if prefixOnly && c.broken == "" {
-			if ncall < len(s.Jobs) {
-				enabled = append(enabled, label{Kind: "call", Job: ncall})
+			if i, ok := c.nextCall(); ok {
+				enabled = append(enabled, label{Kind: "call", Job: i})
 			}
 			for _, w := range c.parkedWorkers() {
-				enabled = append(enabled, label{Kind: "step", W: w})
+				if c.abandonable(w) {
+					enabled = append(enabled, label{Kind: "abandon", W: w})
+				} else if c.steppable(w) {
+					enabled = append(enabled, label{Kind: "step", W: w})
+				}
 			}
 			for _, j := range c.parkedCallers() {
 				enabled = append(enabled, label{Kind: "cstep", Job: j})
@@ -446,8 +564,7 @@ func runConcMode(s *concSpec, r *rand.Rand, prefixOnly bool) (out []labelObs, en
 			}
 		}
 	} else {
-		next := 0
-		wantStop := r.Intn(5) == 0
+		wantStop := r.Intn(5) == 0 && s.Class == ""
 		burst := 1 + r.Intn(4)
 		for c.broken == "" {
 			ws := c.parkedWorkers()
@@ -456,16 +573,22 @@ func runConcMode(s *concSpec, r *rand.Rand, prefixOnly bool) (out []labelObs, en
 				w int
 			}
 			opts := []opt{}
-			if next < len(s.Jobs) {
+			next, more := c.nextCall()
+			if more {
 				opts = append(opts, opt{label{Kind: "call", Job: next}, 2 * burst})
 			}
+			ncalled := len(c.called)
 			for _, w := range ws {
-				opts = append(opts, opt{label{Kind: "step", W: w}, 2})
+				if c.abandonable(w) {
+					opts = append(opts, opt{label{Kind: "abandon", W: w}, 6})
+				} else if c.steppable(w) {
+					opts = append(opts, opt{label{Kind: "step", W: w}, 2})
+				}
 			}
 			for _, j := range c.parkedCallers() {
 				opts = append(opts, opt{label{Kind: "cstep", Job: j}, 1})
 			}
-			if wantStop && !stopped && next > len(s.Jobs)/2 {
+			if wantStop && !stopped && ncalled > len(s.Jobs)/2 {
 				opts = append(opts, opt{label{Kind: "stop"}, 1})
 			}
 			if len(opts) == 0 {
@@ -483,9 +606,6 @@ func runConcMode(s *concSpec, r *rand.Rand, prefixOnly bool) (out []labelObs, en
 					break
 				}
 				x -= o.w
-			}
-			if pick.Kind == "call" {
-				next++
 			}
 			if pick.Kind == "stop" {
 				stopped = true
@@ -523,7 +643,21 @@ func runConcMode(s *concSpec, r *rand.Rand, prefixOnly bool) (out []labelObs, en
 		s.Labels = append(s.Labels, l)
 		do(l)
 	}
+	if c.broken == "" && len(c.parkedWorkers()) > 0 {
+		c.anomaly(label{Kind: "stop"}, "an abandoned job is left with no live job queued behind it: its end cannot be observed")
+	}
 	if c.broken != "" {
+		for _, p := range c.parked {
+			if p != nil {
+				close(p.grant)
+			}
+		}
+		h.gate = func(*opCtx, int) {}
+		go func() {
+			for range c.sigs {
+			}
+		}()
+		c.grp.Stop()
 		return c.out, nil, false
 	}
 	if !stopGroup(c.grp) {
@@ -595,7 +729,7 @@ func (lo labelObs) coqAnswer() string {
 	switch lo.Ans {
 	case "fast":
 		return "(AFast " + lo.V.coq() + ")"
-	case "refused":
+	case "refused", "abandoned":
 		return "(ARefused " + lo.E + ")"
 	case "panic":
 		return "APanic"
@@ -629,6 +763,8 @@ func concCase(s *concSpec, out []labelObs, clean bool) vh.Case {
 			kind = "cstep"
 		}
 		switch kind {
+		case "abandon":
+			lab = "(GAbandon " + vh.CoqZ(int64(lo.L.W)) + ")"
 		case "cstep":
 			lab = "(GCaller " + vh.CoqZ(int64(lo.ID)) + ")"
 		case "call":
@@ -641,6 +777,8 @@ func concCase(s *concSpec, out []labelObs, clean bool) vh.Case {
 		items = append(items, fmt.Sprintf("(%s, %s, %s, %s)", lab, lo.coqAnswer(), coqCacheSnap(lo.CacheV, lo.CacheH), coqStoreSnap(lo.StoreV)))
 		d := map[string]interface{}{}
 		switch lo.L.Kind {
+		case "abandon":
+			d["label"] = fmt.Sprintf("the caller of the job worker %d is running gives up (context cancelled)", lo.L.W)
 		case "cstep":
 			d["label"] = fmt.Sprintf("release the caller of job %d", lo.L.Job)
 		case "call":
@@ -657,6 +795,8 @@ func concCase(s *concSpec, out []labelObs, clean bool) vh.Case {
 			if len(inflight) > 0 {
 				overlap++
 			}
+		case "abandoned":
+			d["answer"] = fmt.Sprintf("the caller of job %d returns %s; the handler stays parked", lo.ID, lo.E)
 		case "refused":
 			d["answer"] = "refused " + lo.E
 		case "cstep":
@@ -696,11 +836,18 @@ func concCase(s *concSpec, out []labelObs, clean bool) vh.Case {
 	rp, _ := json.Marshal(&sp)
 	jobs := []string{}
 	for i, o := range s.Jobs {
-		jobs = append(jobs, fmt.Sprintf("%d:%s", i, o))
+		js := fmt.Sprintf("%d:%s", i, o)
+		if o.Ab {
+			js += " (caller gives up during the store callback)"
+		}
+		if o.Chain {
+			js += " (issued by the previous job's goroutine when that call has returned)"
+		}
+		jobs = append(jobs, js)
 	}
 	return vh.Case{
 		Coq:        fmt.Sprintf("CConc %s %s %s %s", coqCfg(g), vh.CoqNat(g.Deep), vh.CoqZList(g.Univ), vh.CoqList(items)),
-		Class:      fmt.Sprintf("sched/%s/w%d/deep%d", g.facade(), g.N, g.Deep),
+		Class:      s.Class + fmt.Sprintf("sched/%s/w%d/deep%d", g.facade(), g.N, g.Deep),
 		Nontrivial: len(out) >= 6 && (fast > 0 || len(s.Jobs) >= 3),
 		Desc: map[string]interface{}{"mode": "scheduled", "workers": g.N, "facade": g.facade(), "key_type": kindNames[g.Kind], "queue_bound": g.Deep,
 			"universe": g.Univ, "initial_store": g.InitL, "jobs": jobs, "labels": desc, "fast_path_hits": fast, "fast_path_hits_during_a_handler": overlap, "clean_shutdown": clean},
@@ -767,4 +914,59 @@ func genConc(r *rand.Rand, focus string) *concSpec {
 		jobs = jobs[:12]
 	}
 	return &concSpec{G: g, Jobs: jobs}
+}
+
+
+// Callers that give up: a Get whose caller's context is cancelled while the worker is parked inside the load of that
+// key; the same goroutine then goes on to its next Get (another key, same or another worker; possibly abandoned as
+// well); a barrier per abandoned job makes its end observable.  Everything else is scheduled at random.
+func genAbandon(r *rand.Rand) *concSpec {
+	g := grpSpec{Wrapped: true, N: []int{1, 2, 2, 3}[r.Intn(4)], Cap: []int{-1, -1, 2, 100}[r.Intn(4)], Kind: []int{kInt, kInt64, kInt64CRC, kString}[r.Intn(4)]}
+	nk := 3 + r.Intn(3)
+	for len(g.Univ) < nk {
+		k := int64(r.Intn(30))
+		dup := false
+		for _, x := range g.Univ {
+			dup = dup || x == k
+		}
+		if !dup {
+			g.Univ = append(g.Univ, k)
+		}
+	}
+	for i, k := range g.Univ {
+		if i == 0 || r.Intn(10) < 7 {
+			g.InitL = append(g.InitL, [2]int64{k, int64(3 + 7*i + r.Intn(5))}) // distinct plain data
+		}
+	}
+	jobs := []opSpec{}
+	busy := map[int]bool{}
+	nAb := 1 + r.Intn(3)
+	ki := 0
+	var abKeys []int64
+	for ki < len(g.Univ)-1 && len(abKeys) < nAb {
+		k := g.Univ[ki]
+		w := route(&g, k)
+		if busy[w] {
+			break // this worker is parked in an abandoned load: a get queued there cannot be abandoned in its own load
+		}
+		busy[w] = true
+		jobs = append(jobs, opSpec{Op: opGet, K: k, Ab: true, Chain: len(jobs) > 0})
+		abKeys = append(abKeys, k)
+		ki++
+	}
+	// the request the goroutine goes on to with a live context
+	jobs = append(jobs, opSpec{Op: opGet, K: g.Univ[ki], Chain: true})
+	for i, k := range abKeys {
+		jobs = append(jobs, opSpec{Op: opDelete, K: k, Faults: []int{1}, After: i + 1}) // barrier, queued behind job i
+	}
+	// a few more requests on the keys not involved above, and probes of every key at the end
+	rest := g.Univ[ki+1:]
+	for n := r.Intn(4); n > 0 && len(rest) > 0; n-- {
+		k := rest[r.Intn(len(rest))]
+		jobs = append(jobs, opSpec{Op: []int{opAdd, opUpdate, opUpsertLoad, opUpdOrAdd}[r.Intn(4)], K: k, D: int64(50 + r.Intn(40))})
+	}
+	for _, k := range g.Univ {
+		jobs = append(jobs, opSpec{Op: opGet, K: k, Faults: []int{1}})
+	}
+	return &concSpec{G: g, Jobs: jobs, Class: "abandon/"}
 }
